@@ -365,3 +365,66 @@ QUERIES.append(
      "bound": "three `gwf run` invocations on a chain of 2 through the real TrackingBackend (state file on the VFS) and the simulator (Slurm, and the local pool whose first task id is 0; thorough: all four backends): after the first run each accepted job is pending / running / failed / cancelled / done (symbolic), "
               "after the second each new job pending or running; submissions and prerequisite ids must follow the plan for each target's latest accepted job"})
 META["real"] = META["real"] + ["gwf.plugins.run.run (body)", "gwf.backends.base.TrackingBackend.__init__/close (persistence across invocations)", "gwf.backends.slurm.*"]
+
+
+# ---------------------------------------------------------------- Q2d a rejected submission never lets dependents wait on a job of an earlier run
+def _q2d(s1a, s1b, kfault, kind):
+    """Run 1 submits A and B (chain); both jobs then end (failed / cancelled / done with the output removed again, symbolic).
+    In run 2 the scheduler rejects the kfault-th submission (three ways of failing).  Whatever run 2 still submits, every
+    prerequisite it names is a job that was accepted in run 2 or is still live - never a finished job of run 1."""
+    sh = q.SHARD
+    if not (q.in_range(s1a, 3) and q.in_range(s1b, 3) and q.in_range(kfault, 3) and q.in_range(kind, 3)):
+        return q.SKIP
+    ends = ["failed", "cancelled", "done"]
+    ea, eb = q.pick(ends, s1a), q.pick(ends, s1b)
+    kf, kd = q.pick([0, 1, 2], kfault), q.pick([0, 1, 2], kind)
+    if eb == "done" and ea != "done":
+        return q.SKIP        # B cannot have succeeded if A did not
+    be = sh.get("be", "slurm")
+    with q.notrace():
+        pr = Project("chain2", be)
+        pr.add_sources(5)
+        w = pr.w
+        w.install()
+    try:
+        w.concretely(w.run)
+        jobs1 = abst.jobs_by_cmd(w)
+        for j, e in zip(jobs1, (ea, eb)):
+            abst.set_state(w, j["id"], e)        # (a job that is done leaves no output here: the file was removed again, so the target is stale)
+        dead = set(str(j["id"]) for j in jobs1)
+        if kf:
+            w.sim.fault_only = ({"slurm": "sbatch", "sge": "qsub", "lsf": "bsub"}[be],)
+            w.sim.ncmd = 0
+            w.sim.fault_at = kf
+            w.sim.fault_kind = kd
+        try:
+            w.run()
+        except Exception:
+            pass
+        w.sim.fault_at = None
+        jobs2 = abst.jobs_by_cmd(w)[len(jobs1):]
+        new_ids = set(str(j["id"]) for j in jobs2)
+        for j in jobs2:
+            for d in j["deps"]:
+                if str(d) in dead:
+                    return "run 2 (submission %d rejected, fault kind %d) submitted %s waiting for job %s, a %s job of run 1" % (kf, kd, j["name"], d, dict(zip([str(x["id"]) for x in jobs1], (ea, eb)))[str(d)])
+                if str(d) not in new_ids:
+                    return "run 2 submitted %s waiting for an unknown job %s" % (j["name"], d)
+        names2 = [j["name"] for j in jobs2]
+        if "B" in names2 and "A" not in names2:
+            return "run 2 submitted B although the submission of its stale dependency A was not accepted"
+        return ""
+    finally:
+        w.uninstall()
+
+
+def q2d(s1a: int, s1b: int, kfault: int, kind: int) -> str:
+    """
+    post: _ == ""
+    """
+    return q.run(_q2d, (s1a, s1b, kfault, kind))
+
+
+QUERIES.append(
+    {"name": "Q2d", "fn": q2d, "shards": {"quick": [{}], "thorough": [{"be": b} for b in ("slurm", "sge", "lsf")]}, "timeout": {"quick": 600, "thorough": 900},
+     "bound": "chain of 2, two invocations: the jobs of the first end failed / cancelled / done-but-stale (symbolic), the scheduler rejects the 1st or 2nd submission of the second in one of 3 ways, or none"})
